@@ -24,6 +24,11 @@ func newSmap(t *types.Map) *smap { return &smap{kt: t.Key()} }
 func (m *smap) len() int { return m.n }
 
 func (m *smap) access(r *run, write bool) {
+	if write && m != nil {
+		if label, ok := r.frozenMap[m]; ok {
+			r.frozenHit(label)
+		}
+	}
 	if r.tracing && m != nil {
 		if loc, ok := r.watchMap[m]; ok {
 			if write {
